@@ -456,7 +456,8 @@ pub fn gen_c04(out: &mut Out, rng: &mut Rng, thorough: bool) {
         );
     }
     // corruptions of valid frames
-    let samples = if thorough { 200 } else { 16 };
+    // (thorough: every one of the 65536 CRC values for each sample - 24 samples are 1.6 million streams)
+    let samples = if thorough { 24 } else { 16 };
     for i in 0..samples {
         let request = i % 2 == 0;
         let codec = if request { "rtusrv" } else { "rtucli" };
